@@ -8,6 +8,18 @@ import numpy as np
 from .. import Dataset
 
 
+def _get_positions(dataset, group):
+    """
+    The positions of the rows of a group: its own positions, or the positions of the
+    mesh group if it has none.
+    """
+    if "position" in group:
+        return group["position"]
+    if ("mesh" in dataset) and ("position" in dataset["mesh"]):
+        return dataset["mesh"]["position"]
+    return None
+
+
 def extract_sphere(dataset, radius, origin):
     """
     Extract a spherical subdomain around an origin point.
@@ -16,11 +28,11 @@ def extract_sphere(dataset, radius, origin):
     subdomain.meta = dataset.meta.copy()
 
     for name, group in dataset.items():
-        pos = group.get("position", group.parent["amr"]["position"])
-        if pos.shape != group.shape:
+        pos = _get_positions(dataset, group)
+        if (pos is None) or (pos.shape != group.shape):
             warnings.warn(
-                "Ignoring datagroup '{}', which has no position ".format(group)
-                + "vector and has different shape than 'amr' group."
+                "Ignoring datagroup '{}', which has no position ".format(name)
+                + "vector and has different shape than 'mesh' group."
             )
             continue
         r = (pos - origin).norm
@@ -39,11 +51,11 @@ def extract_box(dataset, dx, dy, dz, origin):
     subdomain.meta = dataset.meta.copy()
 
     for name, group in dataset.items():
-        pos = group.get("position", group.parent["amr"]["position"])
-        if pos.shape != group.shape:
+        pos = _get_positions(dataset, group)
+        if (pos is None) or (pos.shape != group.shape):
             warnings.warn(
-                "Ignoring datagroup '{}', which has no position ".format(group)
-                + "vector and has different shape than 'amr' group."
+                "Ignoring datagroup '{}', which has no position ".format(name)
+                + "vector and has different shape than 'mesh' group."
             )
             continue
         centered_pos = pos - origin
